@@ -16,6 +16,14 @@
 (*   RaiseIffFault the call raises iff some item made the filter raise     *)
 (*   Terminates    the call always finishes: done / raised / abandoned     *)
 (*                                                                         *)
+(* The wrapped filter need not be 1:1: Foreach flattens an iterator result, *)
+(* so an item x yields Outs[x] >= 0 outputs (a generator filter).  The     *)
+(* worker pipeline is lazy: item taken (Slice counts it HERE), its outputs *)
+(* put one at a time, then the next take - or the exit once Max items have *)
+(* been taken.  Output j of item x is the number x + 10*(j-1) (so output 1 *)
+(* of a 1:1 filter is the item itself); a faulty item raises before its    *)
+(* first output.                                                           *)
+(*                                                                         *)
 (* action <-> code                                                         *)
 (*   MainStart      249      load_thread.start()                           *)
 (*   MainStartFirst 250      filt_procs.pop().start()                      *)
@@ -29,7 +37,8 @@
 (*   LoaderPillCheck/Put     the same Stopper around each pill, then put   *)
 (*   WorkerGet(w)   sources.py 131-142 QueueSource.read (item / pill),     *)
 (*                  Foreach(filter) raising for a faulty item              *)
-(*   WorkerOut(w)   out_put.write; Slice(None,max) ends the worker         *)
+(*   WorkerOut(w)   out_put.write of one output; after the item's last one *)
+(*                  Slice(None,max) ends the worker if it has had Max items *)
 (*   Callback(w)    219-243  filter_finished_or_failed (atomic under GIL)  *)
 (*   CbPutPoison(w) 240      out_put.write([poison])                       *)
 (*   MainGet        257-261  out_get.read() -> yield                       *)
@@ -37,7 +46,7 @@
 (*   MainFinally    263-291  stop loader, drain both queues, raise         *)
 (***************************************************************************)
 EXTENDS Integers, Sequences, FiniteSets, TLC
-CONSTANTS Configs,      \* set of call configurations [P, Max, N, Faults, Abandon] TLC may choose from in Init
+CONSTANTS Configs,      \* set of call configurations [P, Max, N, Outs, Faults, Abandon] TLC may choose from in Init
           MaxWorkers    \* bound on worker processes ever started (P + N suffices; see EnoughWorkers)
 
 VARIABLE cfg            \* the configuration of this behaviour (chosen in Init, never changes)
@@ -45,11 +54,16 @@ P       == cfg.P        \* n_processes
 Max     == cfg.Max      \* maxtasksperchild (0 = unlimited)
 N       == cfg.N        \* number of items
 Faults  == cfg.Faults   \* items for which the wrapped filter raises
+Out(x)  == cfg.Outs[x]  \* number of outputs the wrapped filter yields for item x (a sequence of length N)
 AllowAbandon == cfg.Abandon \* the consumer may close the output early
 
 Pill == 0
 Items == 1..N
 Workers == 1..MaxWorkers
+OutId(x,j) == x + 10*(j-1)       \* the j-th output of item x  (N < 10)
+ItemOf(o)  == o % 10
+IdxOf(o)   == (o \div 10) + 1
+OutputsOf(S) == UNION {{OutId(x,j) : j \in 1..Out(x)} : x \in S}      \* what the filter produces, item by item, for the items S
 VARIABLES inq, outq, nProcs, excs, stopped, event,
           lpc, li, cbpills,                  \* loader thread and its callback thread
           wst, wcur, whandled, wpois, wexc,  \* worker processes
@@ -114,20 +128,27 @@ LoaderPillPut == /\ lpc = "pillput" /\ Len(inq) < 2*P
 (* ---------------- worker processes ---------------- *)
 WorkerBoot(w) == /\ wst[w] = "boot" /\ event' = TRUE /\ wst' = [wst EXCEPT ![w] = "idle"]
                  /\ UNCHANGED <<cfg,inq,outq,nProcs,excs,stopped,loaderv,wcur,whandled,wpois,wexc,nstarted,mainv>>
+(* an item is finished (all its outputs put, or none to put): the worker takes the next one unless it has had Max items *)
+AfterItem(w,h) == IF Max > 0 /\ h = Max THEN "exited" ELSE "idle"
 WorkerGet(w) == /\ wst[w] = "idle" /\ inq # <<>>
                 /\ inq' = Tail(inq)
                 /\ LET x == Head(inq) IN
                    IF x = Pill THEN /\ wpois' = [wpois EXCEPT ![w] = TRUE] /\ wst' = [wst EXCEPT ![w] = "exited"]
-                                    /\ UNCHANGED <<wcur,wexc>>
+                                    /\ UNCHANGED <<wcur,wexc,whandled>>
                    ELSE IF x \in Faults THEN /\ wexc' = [wexc EXCEPT ![w] = TRUE] /\ wst' = [wst EXCEPT ![w] = "exited"]
                                              /\ wcur' = [wcur EXCEPT ![w] = x] /\ UNCHANGED wpois
-                   ELSE /\ wcur' = [wcur EXCEPT ![w] = x] /\ wst' = [wst EXCEPT ![w] = "have"]
+                                             /\ whandled' = [whandled EXCEPT ![w] = @ + 1]
+                   ELSE /\ wcur' = [wcur EXCEPT ![w] = x]        \* = OutId(x,1), the next output to put
+                        /\ whandled' = [whandled EXCEPT ![w] = @ + 1]      \* Slice(None,max) counts ITEMS taken
+                        /\ wst' = [wst EXCEPT ![w] = IF Out(x) > 0 THEN "have" ELSE AfterItem(w, whandled[w] + 1)]
                         /\ UNCHANGED <<wpois,wexc>>
-                /\ UNCHANGED <<cfg,outq,nProcs,excs,stopped,event,loaderv,whandled,nstarted,mainv>>
+                /\ UNCHANGED <<cfg,outq,nProcs,excs,stopped,event,loaderv,nstarted,mainv>>
 WorkerOut(w) == /\ wst[w] = "have"
-                /\ outq' = Append(outq, wcur[w]) /\ whandled' = [whandled EXCEPT ![w] = @ + 1]
-                /\ wst' = [wst EXCEPT ![w] = IF Max > 0 /\ whandled[w] + 1 = Max THEN "exited" ELSE "idle"]
-                /\ UNCHANGED <<cfg,inq,nProcs,excs,stopped,event,loaderv,wcur,wpois,wexc,nstarted,mainv>>
+                /\ outq' = Append(outq, wcur[w])
+                /\ IF IdxOf(wcur[w]) < Out(ItemOf(wcur[w]))
+                   THEN wcur' = [wcur EXCEPT ![w] = @ + 10] /\ UNCHANGED wst      \* more outputs of the same item
+                   ELSE wst' = [wst EXCEPT ![w] = AfterItem(w, whandled[w])] /\ UNCHANGED wcur
+                /\ UNCHANGED <<cfg,inq,nProcs,excs,stopped,event,loaderv,whandled,wpois,wexc,nstarted,mainv>>
 (* join_and_call thread of worker w: filter_finished_or_failed(worker) *)
 Callback(w) == /\ wst[w] = "exited"
                /\ LET ex == IF wexc[w] THEN Append(excs, wcur[w]) ELSE excs IN
@@ -157,15 +178,16 @@ Spec == Init /\ [][Next]_vars /\ Fair
 Range(s) == {s[i] : i \in DOMAIN s}
 NoDup(s) == \A i, j \in DOMAIN s : i # j => s[i] # s[j]
 Good     == Items \ Faults
-NoDupEver     == NoDup(delivered) /\ Range(delivered) \subseteq Good
-ExactlyOnce   == mpc = "done" => Range(delivered) = Items /\ NoDup(delivered)
+NoDupEver     == NoDup(delivered) /\ Range(delivered) \subseteq OutputsOf(Good)
+ExactlyOnce   == mpc = "done" => Range(delivered) = OutputsOf(Items) /\ NoDup(delivered)
 (* no output is ever in two places, and none vanishes before the caller stops listening *)
-InFlight      == Range(inq) \cup Range(outq) \cup {wcur[w] : w \in {v \in Workers : wst[v] = "have"}}
+Remaining(w)  == {OutId(ItemOf(wcur[w]), j) : j \in IdxOf(wcur[w])..Out(ItemOf(wcur[w]))}
+InFlight      == OutputsOf(Range(inq) \ {Pill}) \cup Range(outq) \cup UNION {Remaining(w) : w \in {v \in Workers : wst[v] = "have"}}
 Conserved     == (mpc \in {"start1","wait","rest","get"} /\ excs = <<>> /\ (\A w \in Workers : ~wexc[w]))
-                   => Items \subseteq (Range(delivered) \cup InFlight \cup li..N)
-MaxTasks      == Max > 0 => \A w \in Workers : whandled[w] <= Max
+                   => OutputsOf(Items) \subseteq (Range(delivered) \cup InFlight \cup OutputsOf(li..N))
+MaxTasks      == Max > 0 => \A w \in Workers : whandled[w] <= Max          \* whandled = ITEMS taken, whatever they yield
 OnePoison     == Cardinality({i \in DOMAIN outq : outq[i] = Pill}) <= 1
-RaiseIffFault == /\ (mpc = "done" => excs = <<>> /\ Faults \cap Range(delivered) = {})
+RaiseIffFault == /\ (mpc = "done" => excs = <<>> /\ Faults \cap {ItemOf(o) : o \in Range(delivered)} = {})
                  /\ (mpc = "raised" => excs # <<>> /\ excs[1] \in Faults)
                  /\ (mpc = "done" => Faults = {})
 EnoughWorkers == \A w \in Workers : wst[w] = "cbstart" => nstarted < MaxWorkers
